@@ -245,7 +245,7 @@ pub fn run(ctx: &mut Ctx) -> (String, Value, Vec<String>) {
         }
     }
     // (c) query histories on two clones sharing the cache == fresh object per query
-    let depth = if quick { 4 } else { 5 };
+    let depth = if quick { 4 } else { 6 };
     let alpha = alphabet();
     let hp: Vec<Vec<u64>> = if quick { vec![vec![2, 3, 5], vec![3, 4, 4, 7]] } else { vec![vec![2, 3, 5], vec![3, 4, 4, 7], vec![1, 2, 3], vec![4, 5, 9, 9, 10], vec![2, 3]] };
     let n = AtomicU64::new(0);
